@@ -30,6 +30,7 @@ def InnerOf (s : St) (i : Nat) : Prop := ∃ Q w, holder? s Q = some w ∧ i ∈
 
 /-- **NoUnintendedSharing** -/
 structure Inv (s : St) : Prop where
+  wf : ∀ (x c : Nat), s.names[x]? = some c → c < s.vcells.length
   uniq : ∀ P Q a k1 k2, holder? s P = some (.arr a k1) → holder? s Q = some (.arr a k2) → P = Q
   sep : ∀ P a k, holder? s P = some (.arr a k) → ¬ InnerOf s a
   bound : ∀ P w, holder? s P = some w → ∀ i ∈ w.aids, i < s.next
@@ -115,7 +116,7 @@ theorem list_map_eq_set {α : Type} (g : α → α) (l : List α) (i : Nat) (x :
   simp only [List.getElem?_map, List.getElem?_set]
   have hlt : i < l.length := (List.getElem?_eq_some_iff.mp hx).1
   by_cases hj : i = j
-  · subst hj; simp [hx]
+  · subst hj; rw [hx]; simp [hlt]
   · simp only [hj, if_false]
     cases hy : l[j]? with
     | none => rfl
@@ -204,7 +205,7 @@ theorem setHolder_setHolder (s : St) (P : Pos) (w1 w2 old : Val) (hold : holder?
 /-- Overwriting holder `P` with a value whose root is the old root or fresh (and
 larger than everything inside it), and whose inner identities are inner identities
 of the old state or fresh, keeps the invariant. -/
-theorem Inv.setHolder {s : St} (hinv : Inv s) (P : Pos) (old w : Val) (n : Nat)
+theorem Inv.overwrite {s : St} (hinv : Inv s) (P : Pos) (old w : Val) (n : Nat)
     (hold : holder? s P = some old) (hn : s.next ≤ n)
     (hroot : ∀ a k, w = .arr a k → (∃ k0, old = .arr a k0) ∨ (s.next ≤ a ∧ ∀ i ∈ aidsL k, i < a))
     (hinner : ∀ i ∈ innerAids w, InnerOf s i ∨ s.next ≤ i)
@@ -226,21 +227,26 @@ theorem Inv.setHolder {s : St} (hinv : Inv s) (P : Pos) (old w : Val) (n : Nat)
     rw [hh] at hx
     by_cases hq : Q = P
     · simp [hq] at hx
-      rcases hroot a k hx.symm with ⟨k0, e⟩ | ⟨e, _⟩
+      rcases hroot a k hx with ⟨k0, e⟩ | ⟨e, _⟩
       · exact Or.inl ⟨P, k0, by rw [hold, e]⟩
       · exact Or.inr e
     · simp [hq] at hx; exact Or.inl ⟨Q, k, hx⟩
-  refine ⟨?_, ?_, ?_⟩
+  refine ⟨?_, ?_, ?_, ?_⟩
+  · intro x c hx
+    have := hinv.wf x c (by cases P <;> first | exact hx | (simp only [setHolder, St.setProp] at hx; split at hx <;> exact hx))
+    cases P with
+    | v c' => simpa [setHolder] using this
+    | p h p => simp only [setHolder, St.setProp]; split <;> exact this
   · intro Q1 Q2 a k1 k2 h1 h2
     rw [hh] at h1 h2
     by_cases q1 : Q1 = P <;> by_cases q2 : Q2 = P
     · rw [q1, q2]
     · simp [q1] at h1; simp [q2] at h2
-      rcases hroot a k1 h1.symm with ⟨k0, e⟩ | ⟨e, _⟩
+      rcases hroot a k1 h1 with ⟨k0, e⟩ | ⟨e, _⟩
       · exact (q2 (hinv.uniq Q2 P a k2 k0 h2 (by rw [hold, e]))).elim
       · have := hinv.bound Q2 _ h2 a (by simp [Val.aids]); omega
     · simp [q1] at h1; simp [q2] at h2
-      rcases hroot a k2 h2.symm with ⟨k0, e⟩ | ⟨e, _⟩
+      rcases hroot a k2 h2 with ⟨k0, e⟩ | ⟨e, _⟩
       · exact (q1 (hinv.uniq Q1 P a k1 k0 h1 (by rw [hold, e]))).elim
       · have := hinv.bound Q1 _ h1 a (by simp [Val.aids]); omega
     · simp [q1] at h1; simp [q2] at h2; exact hinv.uniq Q1 Q2 a k1 k2 h1 h2
@@ -250,7 +256,7 @@ theorem Inv.setHolder {s : St} (hinv : Inv s) (P : Pos) (old w : Val) (n : Nat)
     by_cases hq : Q = P
     · simp [hq] at hx'
       -- the new value's own root
-      rcases hroot a k hx'.symm with ⟨k0, e⟩ | ⟨e, hlt⟩
+      rcases hroot a k hx' with ⟨k0, e⟩ | ⟨e, hlt⟩
       · -- old root: below next and not inner in the old state
         have hb : a < s.next := hinv.bound P _ hold a (by rw [e]; simp [Val.aids])
         rcases hin a hI with h | h
@@ -280,7 +286,7 @@ theorem Inv.setHolder {s : St} (hinv : Inv s) (P : Pos) (old w : Val) (n : Nat)
       omega
 
 theorem Inv.next {s : St} (hinv : Inv s) (n : Nat) (hn : s.next ≤ n) : Inv { s with next := n } := by
-  refine ⟨?_, ?_, ?_⟩
+  refine ⟨hinv.wf, ?_, ?_, ?_⟩
   · intro P Q a k1 k2 h1 h2; rw [holder?_next] at h1 h2; exact hinv.uniq P Q a k1 k2 h1 h2
   · intro P a k h1 ⟨Q, w, hw, hm⟩; rw [holder?_next] at h1 hw; exact hinv.sep P a k h1 ⟨Q, w, hw, hm⟩
   · intro P w hw i hi; rw [holder?_next] at hw; have := hinv.bound P w hw i hi; show i < n; omega
